@@ -18,6 +18,7 @@ fn enc(c: &C) -> Vec<String> {
     w.0
 }
 fn dec(t: &[String]) -> Option<C> {
+    let (t, _) = split_flavour(t);
     let mut r = R::new(t);
     Some(C { xs: r.list(Rec::get)?, qs: r.list(Rec::get)? })
 }
@@ -29,7 +30,9 @@ fn put_opt(w: &mut W, g: Option<&GenomicRange>) {
 fn exec(t: &[String]) -> Option<String> {
     let c = dec(t)?;
     let n = c.xs.len();
-    let set: GIntervalIndexSet = c.xs.iter().map(|r| r.gr()).collect();
+    let fl = split_flavour(t).1;
+    // regions and queries carried by the flavour's BEDLike implementor
+    let set: GIntervalIndexSet = crate::with_bedlikes!(fl, &c.xs, |xs| xs.into_iter().collect());
     let mut w = W::new();
     w.n(set.len());
     let it: Vec<&GenomicRange> = set.iter().collect();
@@ -45,8 +48,8 @@ fn exec(t: &[String]) -> Option<String> {
         put_opt(&mut w, idx.as_ref());
     }
     w.n(c.qs.len());
-    for q in &c.qs {
-        let q = q.gr();
+    for (qi, q) in c.qs.iter().enumerate() {
+      crate::with_bedlike!(rot_flavour(fl, qi), q, |q| {
         w.flag(set.is_overlapped(&q));
         let f: Vec<GenomicRange> = set.find(&q).collect();
         w.n(f.len());
@@ -57,27 +60,30 @@ fn exec(t: &[String]) -> Option<String> {
         let ff: Vec<(GenomicRange, usize)> = set.find_full(&q).map(|(g, i)| (g, *i)).collect();
         w.n(ff.len());
         for (g, i) in &ff { put_gr(&mut w, g); w.n(*i); }
+      });
     }
-    let map: GIntervalIndexMap<u64> = c.xs.iter().enumerate().map(|(i, r)| (r.gr(), 1000 + i as u64)).collect();
+    let map: GIntervalIndexMap<u64> = crate::with_bedlikes!(fl, &c.xs, |xs| xs.into_iter().enumerate().map(|(i, r)| (r, 1000 + i as u64)).collect());
     w.n(map.len());
     w.n(n + 3);
     for i in 0..n + 3 {
         match map.get(i) { None => { w.n(0); } Some(v) => { w.n(1).n(*v); } }
     }
     w.n(c.qs.len());
-    for q in &c.qs {
-        let q = q.gr();
+    for (qi, q) in c.qs.iter().enumerate() {
+      crate::with_bedlike!(rot_flavour(fl, qi), q, |q| {
         let f: Vec<(GenomicRange, u64)> = map.find(&q).map(|(g, v)| (g, *v)).collect();
         w.n(f.len());
         for (g, v) in &f { put_gr(&mut w, g); w.n(*v); }
         let fi: Vec<(GenomicRange, usize)> = map.find_index_of(&q).map(|(g, i)| (g, *i)).collect();
         w.n(fi.len());
         for (g, i) in &fi { w.b(g.chrom().as_bytes()).n(g.start()).n(g.end()).n(*i); }
+      });
     }
     Some(w.join())
 }
 
-fn shrink(t: &[String]) -> Vec<Vec<String>> {
+fn shrink(t: &[String]) -> Vec<Vec<String>> { shrink_flavoured(t, shrink0) }
+fn shrink0(t: &[String]) -> Vec<Vec<String>> {
     let Some(c) = dec(t) else { return vec![] };
     let mut out = vec![];
     for qs in shrink_vec(&c.qs) { out.push(C { xs: c.xs.clone(), qs }); }
@@ -111,6 +117,7 @@ fn gen(rng: &mut Rng, tier: Tier) -> Vec<Case> {
         if rng.chance(1, 4) { qs.push(Rec::new("nochrom", 0, 100)); }
         out.push(Case::new(if small { "boundary" } else { "random" }, enc(&C { xs, qs })));
     }
+    add_flavours(rng, &mut out);
     out
 }
 
